@@ -115,12 +115,53 @@ class AV:
 
 
 class ZA:
-    """array of integers backed by a z3 array (BV64 -> BVn). n = concrete length or None"""
-    __slots__ = ("arr", "n")
+    """array of integers backed by a z3 array (BV64 -> BVn) plus an overlay of
+    values at concrete indexes (so that concrete-index code never touches the
+    array theory). n = concrete length or None"""
+    __slots__ = ("arr", "n", "ov", "_fl")
 
-    def __init__(self, arr, n):
+    def __init__(self, arr, n, ov=None):
         self.arr = arr
         self.n = n
+        self.ov = ov or {}
+        self._fl = None
+
+    def flush(self):
+        if not self.ov:
+            return self.arr
+        if self._fl is None:
+            a = self.arr
+            for k in sorted(self.ov):
+                a = z3.Store(a, bv(k), self.ov[k])
+            self._fl = a
+        return self._fl
+
+    def read(self, idx):
+        if z3.is_bv_value(idx):
+            k = idx.as_long()
+            v = self.ov.get(k)
+            if v is not None:
+                return v
+            if z3.is_const(self.arr) or z3.is_K(self.arr):
+                if z3.is_K(self.arr):
+                    return self.arr.arg(0)
+                return z3.Select(self.arr, idx)
+            return z3.simplify(z3.Select(self.arr, idx))
+        return z3.Select(self.flush(), idx)
+
+    def write(self, idx, val, cc=None):
+        """returns a new ZA; cc = condition under which the write happens (None = always)"""
+        if z3.is_bv_value(idx):
+            k = idx.as_long()
+            ov = dict(self.ov)
+            if cc is None or z3.is_true(cc):
+                ov[k] = val
+            else:
+                ov[k] = zif(cc, val, self.read(idx))
+            return ZA(self.arr, self.n, ov)
+        fl = self.flush()
+        nv = val if (cc is None or z3.is_true(cc)) else zif(cc, val, z3.Select(fl, idx))
+        return ZA(z3.Store(fl, idx, nv), self.n)
 
     def __repr__(self):
         return "ZA[%s]" % self.n
@@ -341,7 +382,13 @@ def ite(c, a, b):
     if ta is AV:
         return AV([ite(c, x, y) for x, y in zip(a.e, b.e)])
     if ta is ZA:
-        return ZA(zif(c, a.arr, b.arr), a.n if a.n == b.n else None)
+        n = a.n if a.n == b.n else None
+        if a.arr.eq(b.arr):
+            ov = {}
+            for k in set(a.ov) | set(b.ov):
+                ov[k] = zif(c, a.read(bv(k)), b.read(bv(k)))
+            return ZA(a.arr, n, ov)
+        return ZA(zif(c, a.flush(), b.flush()), n)
     if ta is Ptr:
         return merge_ptr(c, a, b)
     if ta is Slice:
@@ -440,7 +487,7 @@ def eq(a, b):
     if ta is ZA:
         if a.n is None:
             raise TypeError("eq on unsized array")
-        return And(*[z3.Select(a.arr, bv(i)) == z3.Select(b.arr, bv(i)) for i in range(a.n)])
+        return And(*[eq(a.read(bv(i)), b.read(bv(i))) for i in range(a.n)])
     if ta is Ptr:
         return ptr_eq(a, b)
     if ta is Str:
